@@ -66,6 +66,8 @@ def rules(ctx):
     C02.copy_ctor_counter(ctx, 'R06.5')
     from .C07 import builders_pure
     builders_pure(ctx, 'R06.4', E)
+    from .C07 import no_collapsing_dictcomp
+    no_collapsing_dictcomp(ctx, 'R06.4')
     C02.record_balance(ctx, 'R06.5', P.func('PCBO.add_constraint_eq_zero'), 'eq')
     C02.early_exits(ctx, 'R06.5', P.func('PCBO.add_constraint_eq_zero'))
     C02.lam_zero_rule(ctx, 'R06.5', P.func('PCBO.add_constraint_eq_zero'))
